@@ -616,6 +616,13 @@ func (x *Exec) unop(fr *Frame, i *ssa.UnOp) {
 		dv := x.defineVal(i.Name(), v)
 		x.assume(fr.curPC, x.typeInv(dv, st))
 		fr.vals[i] = dv
+		if sl, ok := i.Type().Underlying().(*types.Slice); ok && fr.top && x.probing == 0 {
+			// a slice read from a field (attribute lists of an operator): track its array across heap
+			// versions by ground frame instances, like the slice parameters
+			for k := range layout(sl.Elem()) {
+				x.anchor(fmt.Sprintf("E$%s$%d", typeKey(sl.Elem()), k), dv.base())
+			}
+		}
 	case token.NOT:
 		fr.vals[i] = boolVal(not(x.valueOf(fr, i.X).C[0]))
 	case token.SUB:
